@@ -10,7 +10,7 @@ TRUSTED = ['Lean 4 kernel; axioms propext, Classical.choice, Quot.sound only',
            'compile failure itself is tree.insert(..).unwrap() panicking inside the attribute macro: modelled as "insert error => no program", validated on real compiler runs of generated crates',
            'HashMap in the macro: only its map semantics', 'ASCII declarations',
            'correspondence harness + driver (differential testing; covers only generated cases)']
-RULE = ('MACRO on pairs/sets of declarations biased towards intersecting spellings (identical, short-equals-long, optional-node-induced) '
+RULE = ('TREE of every compiled interface and every spelling of every declaration (it must reach its own handler); MACRO on pairs/sets of declarations biased towards intersecting spellings (identical, short-equals-long, optional-node-induced) '
         'and their collision-free twins (one letter renamed, kind flipped, bracket removed), real command.rs/tree.rs by path include vs model, '
         'judged by an independent spelling-set intersection; plus real cargo builds of generated one-interface crates (ambiguous crate and twin). '
         'non-trivial = distinct executed op / compiled crate')
@@ -76,8 +76,19 @@ def fresh_cases(tier, rng, ifaces):
     return out
 
 
+def shadow_cases(tier, rng, ifaces):
+    """never silently shadowed: on every compiled interface the emitted tree is the model's (TREE) and every spelling of every
+    declaration reaches that declaration's own handler (the RUN-spelling cases of C01)"""
+    from .C01 import header_cases
+    out = []
+    for name, iface in ifaces.items():
+        out.append(Case(f'TREE {name}', None, {'kind': 'TREE'}))
+        out += [c for c in header_cases(rng, iface, tier) if c.meta.get('kind') == 'RUN-spelling']
+    return out
+
+
 def cases(tier, rng, ifaces):
-    out = pair_cases(rng, 4000 if tier == 'quick' else 60000)
+    out = shadow_cases(tier, rng, ifaces) + pair_cases(rng, 4000 if tier == 'quick' else 60000)
     for _ in range(1000 if tier == 'quick' else 20000):
         decls = random_declset(rng, 0.6)
         out.append(Case('MACRO ' + ';'.join(hx(d) for d in decls), macro_oracle, {'decls': decls, 'kind': 'MACRO-set'}))
